@@ -29,6 +29,9 @@ CHECKS = {
  "C10": ("model_checking", "explicit-state BFS (depth-bounded, full-content state de-duplication) with the real merge/delete/weed/filter/reload as transitions; invariant = every observer agrees with a reference model that has no hidden state",
          "The state carries the hidden fields, the model does not: any dependence of a later align/map/distance/nk on history shows up as an observer disagreement in some reached state. Histories to depth 3 (quick) / 5 (thorough) from three start tables, ~140 actions per state.",
          "Depth-bounded, one k (7) and three start tables; canonicalisation guarded by CLI re-execution of the longest paths (traces_validated_against_impl).", "DESIGN.md §5 C10"),
+ "C12": ("exploration", "bounded exhaustive enumeration of paired read sets hitting the count and quality thresholds exactly, real builder vs brute-force count model",
+         "All multiplicity pairs around the threshold, every split of each multiplicity over the two files/strands, every designated low-quality position and value around --min-qual, under all three rules, min-count 1..6, both strand modes and both widths: the filter's decisions are per k-mer, so these small read sets hit every branch (bloom only, bloom+table, below/at/above) with certainty.",
+         "Equality with the model is demanded; a counting-filter collision would show as an extra entry (none expected on these inputs; a larger set bounds the share).", "DESIGN.md §5 C12"),
  "C13": ("exploration", "bounded exhaustive enumeration of weed sets (all windows k..k+4 on a grid, unions, strand/N/case variants) on built files, real weed vs model, plus partition/idempotence relations",
          "Weed-set membership is per k-mer; every window of every sample record (including records of length exactly k) in both orientations, with --reverse on and off, at both widths and the 31/33 boundary decides exact removal, unchanged surviving rows and counts, and idempotence.",
          "--min-freq 0 only; built start files come from the real build.", "DESIGN.md §5 C13"),
